@@ -413,6 +413,8 @@ class CallMixin:
                             if n in names and n not in fields:
                                 v = self.const_value(c2.module, ve)
                                 fields[n] = v if v is not NotImplemented else Sym(f"{qual}.{n}")
+            if not is_dc and not repo.find_method(qual, "__init__"):
+                fields.update({k: v for k, v in kwargs.items() if not k.startswith("**")})
             frozen = any("frozen=True" in d.replace(" ", "") or d in ("element", "message") for d in decos)
             o = Obj(qual, fields, args, kwargs, frozen=frozen and is_dc)
             return o
